@@ -1,4 +1,5 @@
 import AvroModel.Lemmas.Crash
+import AvroModel.Snappy
 /-!
 # C07 on the files the encoder writes
 
@@ -47,5 +48,20 @@ example : readFile exX 9 (fun i => if i = 1 then some (7 : Nat) else none)
     (encRun { blockSize := 100, compress := id, sync := exSync, header := exHdr }
       {} ([.encode [1], .encode [2], .flush, .encode [3]] ++ [EncOp.flush])).2.1.accepted = ⟨[1, 2], .cb 7⟩ := by
   decide +kernel
+
+end Avro.C07
+
+/-! ### The snappy length guard (repair of D34) and valid files
+
+The reader model takes decompression as a parameter (`inflate`); for snappy the real reader now refuses a block whose
+declared decoded length exceeds 22 times the block's size before it calls the decompressor. "Delivers exactly the
+declared records" needs that refusal never to hit a valid block. -/
+namespace Avro.C07
+
+/-- a valid snappy block (any length prefix of at least one byte, any sequence of format-conforming elements) passes the
+guard `declared ≤ 22 * size` — so the repair rejects damage only -/
+theorem snappy_guard_accepts_valid (hdr : Nat) (es : List Snappy.Elem) (hv : ∀ e ∈ es, e.Valid) :
+    Snappy.producedLen es ≤ 22 * (hdr + Snappy.encodedLen es) :=
+  Snappy.valid_block_within_guard hdr es hv
 
 end Avro.C07
